@@ -76,7 +76,9 @@ struct KRow {
     Tins::PDU* (*from_buf)(const uint8_t*, uint32_t);   // the class's OWN (buffer, size) constructor; 0 if it has none
     bool defctor;
     bool (*min_buf)(Bytes&);            // the MinBuf<K> wire image, if the harness has one
+    Tins::PDU* (*wrap)(Tins::PDU*);     // wrapper rows: PDUCacher<X>(x) around a COPY of the X object x (with x's inner chain); else 0
 };
+template <class X> static Tins::PDU* wrap_cacher(Tins::PDU* x) { return new Tins::PDUCacher<X>(*static_cast<X*>(x)); }
 // every class of the table by RTTI (names for objects whose class has no K row: Dot11ManagementFrame, Dot11ControlTA made by slicing)
 static std::vector<std::pair<const std::type_info*, std::string> > class_names() {
     std::vector<std::pair<const std::type_info*, std::string> > v;
@@ -97,9 +99,9 @@ static std::vector<KRow> k_rows() {
     std::vector<KRow> v;
 #define TINS_PDU_CONCRETE(Q, ID, DEFCTOR, BUFCTOR) \
     v.push_back(KRow{short_name(#Q), false, &typeid(Q), &Maker<Q, DEFCTOR, BUFCTOR>::make, &unwrap_plain<Q>,           \
-                     BufMaker<Q, BUFCTOR>::has ? &BufMaker<Q, BUFCTOR>::make : 0, DEFCTOR != 0, &HasMinBuf<Q>::get});
+                     BufMaker<Q, BUFCTOR>::has ? &BufMaker<Q, BUFCTOR>::make : 0, DEFCTOR != 0, &HasMinBuf<Q>::get, 0});
 #define TINS_PDU_CACHEABLE(Q, ID) \
-    v.push_back(KRow{"PDUCacher<" + short_name(#Q) + ">", true, &typeid(Tins::PDUCacher<Q>), &make_cacher<Q>, &unwrap_cacher<Q>, 0, true, 0});
+    v.push_back(KRow{"PDUCacher<" + short_name(#Q) + ">", true, &typeid(Tins::PDUCacher<Q>), &make_cacher<Q>, &unwrap_cacher<Q>, 0, true, 0, &wrap_cacher<Q>});
 #include "classes.inc"
 #undef TINS_PDU_CONCRETE
 #undef TINS_PDU_CACHEABLE
@@ -380,6 +382,32 @@ static Tins::PDU* build_elem(const std::string& spec, Elem& e) {
     }
     // K!B!op!warm = an object of class B made from a K that was looked up before (warm = - | * | T): op copy (slicing copy when B is a
     //               base), assign, clone, move; with B = K also op self (the looked-up object itself)
+    // PDUCacher<X>{Y+Z} = PDUCacher<X>(x) where x is a default X whose inner chain is Y/Z (default objects): a wrapper built around a chain
+    size_t br = spec.find('{');
+    if (br != std::string::npos && spec[spec.size() - 1] == '}') {
+        const KRow* w = 0;
+        for (auto& kr : KR) if (kr.name == spec.substr(0, br) && kr.wrap) w = &kr;
+        if (!w) return 0;
+        std::string xn = w->name.substr(10, w->name.size() - 11);   // PDUCacher<X> -> X
+        std::string list = xn + "+" + spec.substr(br + 1, spec.size() - br - 2);
+        std::unique_ptr<Tins::PDU> head;
+        Tins::PDU* last = 0;
+        for (size_t a = 0; a <= list.size();) {
+            size_t b = list.find('+', a);
+            std::string n = list.substr(a, b == std::string::npos ? b : b - a);
+            const KRow* k = 0;
+            for (auto& kr : KR) if (kr.name == n && !kr.wrapper) k = &kr;
+            if (!k) return 0;
+            Tins::PDU* p = k->make();
+            if (!last) head.reset(p); else last->inner_pdu(p);
+            last = p;
+            if (b == std::string::npos) break;
+            a = b + 1;
+        }
+        Tins::PDU* r = w->wrap(head.get());
+        e = Elem{r, w->unwrap(r), w->name, true};
+        return r;
+    }
     size_t ex = spec.find('!');
     if (ex != std::string::npos) {
         std::vector<std::string> f;
@@ -836,6 +864,26 @@ static void run_job(int job) {
     R.count("setter_calls_that_threw", threw);
     if (parse_reports) R.count("sanitizer_reports_inside_buffer_constructors_not_judged_here", parse_reports);
     if (job == 0) R.count("setters_swept", SR.size());
+    // stage 1e: wrappers built around a CHAIN.  For every wrapper class PDUCacher<X> and every plain class Y: the cached packet X/Y and
+    // X/Y/RawPDU (thorough: also X/Y/Z for Y in a small set and every plain Z); the wrapper alone, as inner layer of an EthernetII, and with
+    // an inner layer of its own (TCP); every T, all seven helpers.  The wrapper may (known finding) answer for X -- for nothing else.
+    {
+        std::vector<std::string> plain;
+        for (auto& kr : KR) if (!kr.wrapper) plain.push_back(kr.name);
+        static const char* const MID[] = {"IP", "UDP", "TCP", "SNAP", "Dot11Data", "EthernetII"};
+        for (auto& w : KR) {
+            if (!w.wrap || cut) continue;
+            std::vector<std::string> inner;
+            for (auto& y : plain) { inner.push_back(y); inner.push_back(y + "+RawPDU"); }
+            if (A.thorough()) for (auto m : MID) for (auto& z : plain) if (z != "RawPDU") inner.push_back(std::string(m) + "+" + z);
+            for (auto& in : inner) {
+                if ((++ticks & 0xff) == 0 && deadline_reached()) { cut = true; break; }
+                std::string el = w.name + "{" + in + "}";
+                const std::string place[3] = {el, "EthernetII/" + el, el + "/TCP"};
+                for (int pl = 0; pl < 3; ++pl) { if (mine(idx)) { g_index = idx; eval_chain(place[pl], "wrapped_chain"); } ++idx; }
+            }
+        }
+    }
     // stage 2: every ordered pair of K rows
     for (auto& a : base) {
         if (deadline_reached()) { cut = true; break; }
